@@ -519,7 +519,7 @@ def _drop_fn(facts):
     raise KeyError("pinned drop of Checkout not found")
 
 
-def evaluate_drop(facts, attempt, conn, lock):
+def evaluate_drop(facts, attempt, conn, lock, waiter="Idle"):
     fn = _drop_fn(facts)
     if not hasattr(facts, "_drop_unit"):
         OPAQUE = r"PoolRef::lock$|PoolInner::(push|cancel_connection)$|ConnectorMeta::new$|CheckoutId::new$"
@@ -535,7 +535,7 @@ def evaluate_drop(facts, attempt, conn, lock):
         if "InnerCheckoutConnecting" in t:
             fields[i] = attempt
         elif t.endswith("Waiting") or "checkout::Waiting<" in t:
-            fields[i] = ("variant", "Idle", ((0, ("const", "RX")),))
+            fields[i] = ("variant", waiter, ((0, ("const", "RX")),)) if waiter != "NoPool" else ("variant", "NoPool", ())
         elif t.startswith("std::option::Option<") and "Connection" in t:
             fields[i] = NONE if conn is None else some(("const", conn))
         elif t.endswith("key::Token"):
@@ -667,11 +667,12 @@ def drop_table(ctx, facts, label="Checkout::drop"):
                 ("ConnectingWithDelayDrop", ("variant", "ConnectingWithDelayDrop", ((0, NONE),)), False),
                 ("ConnectingDelayed", ("variant", "ConnectingDelayed", ((0, C),)), True)]
     for (name, val, hasc) in attempts:
+      for waiter in ("Idle", "Connecting", "NoPool"):
         for conn in (None, "conn:open", "conn:closed"):
             for lock in (True, False):
-                key = "%s|table|attempt=%s%s|undelivered=%s|pool-%s" % (label, name, "(connector gone)" if name == "ConnectingWithDelayDrop" and not hasc else "", conn or "none", "alive" if lock else "gone")
+                key = "%s|table|attempt=%s%s|waiter=%s|undelivered=%s|pool-%s" % (label, name, "(connector gone)" if name == "ConnectingWithDelayDrop" and not hasc else "", waiter, conn or "none", "alive" if lock else "gone")
                 try:
-                    u, got = evaluate_drop(facts, val, conn, lock)
+                    u, got = evaluate_drop(facts, val, conn, lock, waiter)
                 except AbsPaths.Undecided as e:
                     ctx.undecided(key, str(e))
                     continue
@@ -683,4 +684,4 @@ def drop_table(ctx, facts, label="Checkout::drop"):
                 want = spec_drop(name, hasc, conn, lock)
                 ctx.check(got == {want}, key, "dropping a checkout in state %s holding %s, pool %s: %s" % (name, conn or "no connection", "alive" if lock else "gone", list(want) or "nothing to do"),
                           "dropping a checkout in state %s holding %s, pool %s: the drop can do %s, expected %s" % (name, conn or "no connection", "alive" if lock else "gone", sorted(map(str, got)), list(want)), u.where())
-    ctx.floor("%s|table-rows" % label, rows, 36, "scenarios evaluated")
+    ctx.floor("%s|table-rows" % label, rows, 108, "scenarios evaluated")
